@@ -28,7 +28,7 @@ VERIF = os.path.dirname(os.path.dirname(os.path.abspath(__file__)))
 REPO = os.environ.get("VERIF_REPO", "/repo")
 PY = "/venv/bin/python"
 
-ENGINES = {"history": "sim.engine_history", "gcguard": "sim.engine_gcguard", "hashcons": "sim.engine_hashcons",
+ENGINES = {"history": "sim.engine_history", "values": "sim.engine_values", "gcguard": "sim.engine_gcguard", "hashcons": "sim.engine_hashcons",
            "threads": "sim.engine_threads"}
 
 
@@ -87,7 +87,7 @@ def group_main():
             res = eng.execute(rec)
             res["idx"] = idx
             if res["status"] != "ok":
-                res["record"] = rec
+                res["record"] = res.pop("record_override", rec)
                 res["prefix"] = list(executed)
             elif keep_every and idx % keep_every == 0:
                 res["record"] = rec
